@@ -183,7 +183,7 @@ Definition q_of_bits (b : Z) : Q :=
   if sgn =? 0 then mag else (- mag)%Q.
 
 (* the code as it is in the tree (see notes/C19.md for the switch) *)
-Definition cur_fxp := false.
-Definition cur_fxs := false.
+Definition cur_fxp := true.
+Definition cur_fxs := true.
 Definition get_index_cur := get_index cur_fxp cur_fxs.
 Definition framenum_cur := framenum cur_fxp cur_fxs.
